@@ -491,7 +491,16 @@ impl Engine for C16M32Engine {
         } else {
             ((raw & (u32::MAX as u64 >> 1)).clamp(1, limit - 1), "random-below")
         };
-        let o = m32_run(entry, start);
+        let mut o = m32_run(entry, start);
+        let silent = |o: &child::Outcome| o.timed_out || (!o.stderr.contains("the program aborted execution") && !o.stdout.contains("AFTER") && !o.stdout.contains("CAUGHT") && !o.stdout.contains("SETUP-FAILED") && !o.stderr.contains("Undefined Behavior"));
+        if silent(&o) {
+            // the interpreter (or cargo in front of it) produced nothing: an infrastructure hiccup under load, try again
+            o = m32_run(entry, start);
+        }
+        if silent(&o) {
+            // still nothing: not a verdict about the crate
+            return CaseReport { viols: vec![], nontrivial: false, labels: vec!["miri-i686-run-produced-nothing (inconclusive)"], trace: if trace { vec![format!("no output from cargo miri run: exit {:?} {}", o.code, o.stderr.lines().last().unwrap_or(""))] } else { vec![] } };
+        }
         let what = format!("[32-bit usize, Miri i686] {} with the count preset to {:#x}", ENTRIES[entry], start);
         let after = o.stdout.lines().find(|l| l.starts_with("AFTER")).map(|l| l.to_string());
         let caught = o.stdout.contains("CAUGHT");
@@ -667,7 +676,14 @@ impl Engine for C11M32Engine {
             return CaseReport { viols: vec![], nontrivial: false, labels: vec!["miri-i686-unavailable"], trace: if trace { vec![format!("skipped: {}", why)] } else { vec![] } };
         }
         let (shape, path, seed) = (c.p(0) as usize % M32_SHAPES.len(), c.p(1) as usize % M32_PATHS.len(), c.p(2));
-        let o = m32_run_args(&["rt".to_string(), shape.to_string(), path.to_string(), seed.to_string()]);
+        let mut o = m32_run_args(&["rt".to_string(), shape.to_string(), path.to_string(), seed.to_string()]);
+        let silent = |o: &child::Outcome| o.timed_out || (!o.stdout.contains("OK") && !o.stdout.contains("BAD") && !o.stderr.contains("Undefined Behavior") && !o.stderr.contains("panicked") && !o.stderr.contains("aborted execution"));
+        if silent(&o) {
+            o = m32_run_args(&["rt".to_string(), shape.to_string(), path.to_string(), seed.to_string()]);
+        }
+        if silent(&o) {
+            return CaseReport { viols: vec![], nontrivial: false, labels: vec!["miri-i686-run-produced-nothing (inconclusive)"], trace: vec![] };
+        }
         let what = format!("[32-bit usize, Miri i686] payload {} through {}", M32_SHAPES[shape], M32_PATHS[path]);
         let ok = o.stdout.lines().any(|l| l.trim() == "OK") && !o.stderr.contains("Undefined Behavior");
         if !ok {
